@@ -380,3 +380,83 @@ def hash_collision_pairs(rng, var_pool, n):
         if t is not None and sx.var_ids(e):
             out.append((e, t))
     return out
+
+
+# ------------------------------------------------------------------ large inputs
+WIDE_ARITIES = [9, 10, 11, 12, 13, 15, 16, 17, 18, 19, 23, 24, 25, 33, 40]
+
+
+def wide_node(rng, var_pool, head=None, arity=None, kind=None):
+    """an n-ary node with MANY operands (9 and more): variables, small multiples, linear factors with integer roots,
+    constants; kinds: 'vars' (all different variables where possible), 'linear' ((v - k) factors / terms), 'mixed'"""
+    head = head or rng.choice(['Add', 'Mul'])
+    k = arity or rng.choice(WIDE_ARITIES)
+    kind = kind or rng.choice(['vars', 'linear', 'mixed', 'mixed'])
+    ops = []
+    for i in range(k):
+        v = ('V', var_pool[i % len(var_pool)])
+        if kind == 'vars':
+            ops.append(v if rng.random() < 0.8 else ('Mul', [('C', rng.choice([2, 3, 0.5])), v]) if head == 'Add' else ('Add', [v, ('C', 1)]))
+        elif kind == 'linear':
+            ops.append(('Minus', v, ('C', i + 1)) if head == 'Mul' else ('Mul', [('C', i + 1), v]))
+        else:
+            r = rng.random()
+            if r < 0.35:
+                ops.append(v)
+            elif r < 0.5:
+                ops.append(('C', rng.choice([1, 2, -1, 0.5, 3, 1.5, -2])))
+            elif r < 0.65:
+                ops.append(('Divide', v, ('C', rng.choice([2, 4, 3]))))
+            elif r < 0.8:
+                ops.append(('Minus', v, ('C', rng.choice([1, 2, 3]))))
+            elif r < 0.9:
+                ops.append(('NthPow', v, 2))
+            else:
+                ops.append(('Sin', v))
+    return (head, ops)
+
+
+def large_cases(rng, count, max_arity=40, chains=True):
+    """(expression, point) pairs that are LARGE in some direction: wide sums and products (bare and under a parent with a
+    domain condition), at generic points, at points where one factor of a product is exactly zero, where a sum is
+    exactly 0 or 1; deep towers of odd roots whose indices multiply beyond 2^53; long operator-like chains"""
+    out = []
+    pools = [[2], [2, 3], [2, 3, 4, 5, 6, 7]]
+    for _ in range(count):
+        pool = rng.choice(pools)
+        r = rng.random()
+        if r < 0.45:
+            w = wide_node(rng, pool, arity=rng.choice([a for a in WIDE_ARITIES if a <= max_arity]))
+            e = rng.choice([w, w, ('Recip', w), ('Log', w, math.e), ('NthRoot', w, 2), ('Divide', ('C', 1), w), ('Sin', w),
+                            ('NthPow', w, 2), ('Mul', [('V', pool[0]), w]), ('Add', [w, ('V', pool[-1])]), ('Power', ('C', 2), w)])
+            p = [(k, rng.choice([1, 2, 3, 0.5, -1, 1.5, 0, 4, -2.5])) for k in pool]
+            out.append((e, p))
+        elif r < 0.65:
+            # a product of linear factors at one of its roots / next to it; a sum of k*v at a point making it 0 or 1
+            k = rng.choice([a for a in WIDE_ARITIES if a <= max_arity])
+            v = pool[0]
+            prod = ('Mul', [('Minus', ('V', v), ('C', i + 1)) for i in range(k)])
+            root = rng.randint(1, k)
+            for xv in (root, root + 0.5, float(root)):
+                out.append((rng.choice([prod, ('Add', [prod, ('V', v)]), ('Mul', [('V', v), prod])]), [(k_, xv) for k_ in pool]))
+            sm = ('Add', [('V', v)] * 0 + [('Mul', [('C', 1), ('V', v)]) for _ in range(k - 1)] + [('C', -(k - 1))])
+            out.append((rng.choice([('Recip', sm), ('Log', sm, math.e), ('Divide', ('C', 1), sm), sm]), [(k_, 1) for k_ in pool]))
+            out.append((rng.choice([('Recip', sm), ('Log', sm, math.e), sm]), [(k_, 1 + 1.0 / (k - 1)) for k_ in pool]))
+        elif r < 0.8:
+            # towers of odd roots: the product of the indices exceeds 2^53 (a float cannot hold it: parities get lost)
+            ns = [rng.choice([3, 5, 7, 9, 11, 13, 15, 21, 33, 101]) for _ in range(rng.randint(12, 20))]
+            t = ('V', pool[0])
+            for n_ in ns:
+                t = ('NthRoot', t, n_)
+            e = rng.choice([t, ('NthPow', t, 4), ('NthPow', t, 3), ('Mul', [t, ('V', pool[0])]), ('Sin', t)])
+            for xv in (-2, -0.5, 2, 0.25):
+                out.append((e, [(k_, xv) for k_ in pool]))
+        elif chains:
+            # long left-nested chains, as a running total built with + or * produces them
+            L = rng.choice([30, 60, 101, 130])
+            h = rng.choice(['Add', 'Mul'])
+            t = ('V', pool[0])
+            for i in range(L):
+                t = (h, [t, rng.choice([('V', pool[i % len(pool)]), ('C', rng.choice([1, 2, 0.5]))])])
+            out.append((t, [(k_, rng.choice([1, 0.5, 1.5, 2])) for k_ in pool]))
+    return out
